@@ -45,4 +45,5 @@ def run(project, rep):
     rep.run(N.n_r8_cookies, project, rep)
     rep.run(N.n_r9_constructor_params, project, rep)
     rep.run(N.n_r11_url_fixed, project, rep)
+    rep.run(N.n_r12_no_resending_handler, project, rep)
     rep.run(_profile_freshness, project, rep)
